@@ -148,6 +148,11 @@ func (f *File) isValidAlias(alias string) bool {
 }
 
 func (f *File) isDotImport(path string) bool {
+	// once a path has been registered, the name it was registered under decides:
+	// a later ImportName / ImportAlias does not change how it is referred to.
+	if def, ok := f.imports[path]; ok && def.name != "" && def.name != "_" {
+		return def.name == "." && def.alias
+	}
 	if id, ok := f.hints[path]; ok {
 		return id.name == "." && id.alias
 	}
